@@ -146,7 +146,14 @@ def bilinear_term(S, rng, i=None, j=None):
         opts += ["tens"]
     if sv == (2,) and su == (2, 2):
         opts += ["tensu"]
+    opts += ["pair"]            # always possible: one component of each sub-function
     k = rng.choice(opts)
+    if k == "pair":
+        ci = tuple(rng.randrange(d) for d in sv)
+        cj = tuple(rng.randrange(d) for d in su)
+        a = vi[ci] if sv else vi
+        b = uj[cj] if su else uj
+        return g * b * a * _measures(rng, False), k
     if k == "whole":
         return ufl.inner(S.u, S.v) * _measures(rng, False), k
     if k == "comp":
